@@ -938,6 +938,7 @@ struct Coherence {
     full: FileState,
     full_stale_prefix: bool,
     full_good_lines_not_contiguous: bool, // every line is a truth line, but the seqs are not 0,1,2,.. (gap after a roll-back + append, or a re-created suffix)
+    full_tail_stale: bool,                // K1 of the theorems (Model/Cache.v good_tail / tail_faithful): the longest all-good seq-contiguous run at the END of the file is non-empty and does not end at the thread's last frame (a stale prefix is the special case where that run is the whole file)
     full_every_line_parses: bool,         // present and every non-blank line parses as a frame of this thread (the header-level rebuild of a derived sidecar succeeds)
     mr: FileState,
     comp: FileState,
@@ -948,8 +949,15 @@ struct Coherence {
 fn coherence(root: &Path, id: &str, a: &Abs) -> Coherence {
     let (full, pre) = classify_full(root, id, a);
     let gap = abstract_full(root, id, a).map(|ls| !ls.is_empty() && ls.iter().all(|(g, _)| *g) && !ls.iter().enumerate().all(|(i, (_, s))| *s == i as u64)).unwrap_or(false);
+    let tail_stale = abstract_full(root, id, a)
+        .map(|ls| match ls.last() {
+            // good lines carry their truth seq: the run at the end is a suffix of truth iff its last line is truth's last frame
+            Some((true, s)) => *s + 1 != a.truth.len() as u64,
+            _ => false,
+        })
+        .unwrap_or(false);
     let parses = std::fs::read(target_path(root, id, Target::Full)).ok().map(|raw| parsed_lines(&raw, id).is_some()).unwrap_or(false);
-    Coherence { full_every_line_parses: parses, truth_valid: a.truth.iter().enumerate().all(|(i, e)| e.seq == i as u64), full, full_stale_prefix: pre, full_good_lines_not_contiguous: gap, mr: classify_derived_jsonl(root, id, a, Target::Mr), comp: classify_derived_jsonl(root, id, a, Target::Comp), compidx: classify_compidx(root, id, a), ord: classify_ord(root, id, a), ord_tail_coherent: ord_tail_coherent(root, id, a) }
+    Coherence { full_tail_stale: tail_stale, full_every_line_parses: parses, truth_valid: a.truth.iter().enumerate().all(|(i, e)| e.seq == i as u64), full, full_stale_prefix: pre, full_good_lines_not_contiguous: gap, mr: classify_derived_jsonl(root, id, a, Target::Mr), comp: classify_derived_jsonl(root, id, a, Target::Comp), compidx: classify_compidx(root, id, a), ord: classify_ord(root, id, a), ord_tail_coherent: ord_tail_coherent(root, id, a) }
 }
 /// Executable class of a fast/truth disagreement.
 /// The open classes are keyed twice: by the file state the readers meet (computed from the files) AND by the fault
@@ -959,7 +967,8 @@ fn coherence(root: &Path, id: &str, a: &Abs) -> Coherence {
 /// generic class, i.e. as a new violation.
 ///
 /// class / file state at query time / live faults (today's provenance)
-/// S3  full_sidecar_wellformed_stale_prefix: full = proper prefix of truth, all lines good /
+/// S3  full_sidecar_wellformed_stale_prefix: the full sidecar's last line is a well-formed frame that is not the thread's
+///     last frame (K1; the whole file a proper prefix of truth, or anything before that line) /
 ///     Full: TruncLines | Rollback (alive, or across a restart with no append since)
 /// S4  derived_sidecar_wellformed_not_projection: mr/comp parse, != projection /
 ///     that file: Delete | TruncLines | Rollback (+ an append re-created / extended it)
@@ -998,7 +1007,12 @@ fn classify_violation(c: &Coherence, fast: &Ans, _truth: &Ans, q: &Q, prov: &Pro
         // itself no longer validates
         return "truth_stream_seq_reissued_after_stale_sidecar".into();
     }
-    if c.full == FileState::WellFormedDiffers && c.full_stale_prefix && any(&[Target::Full], &["TruncLines", "Rollback"]) {
+    // K1: the full sidecar ends in a well-formed frame that is not the thread's last frame.  Nothing compares the sidecar's
+    // tail with the log on a read, so every reader of the tail (try_replay / scan_tail when the whole file is a prefix,
+    // the head probe of the compile input and of cut_points whatever lies before the last line) may serve it.  Only
+    // faults that put an OLDER well-formed line last produce it.
+    if c.full_tail_stale && any(&[Target::Full], &["TruncLines", "Rollback"]) {
+        debug_assert!(!(c.full == FileState::WellFormedDiffers && c.full_stale_prefix) || c.full_tail_stale);
         return "full_sidecar_wellformed_stale_prefix".into();
     }
     // only the queries that read the derived files can be wrong because of them (replay, cursor / selection status,
